@@ -108,6 +108,9 @@ pub fn gen_aud_nonce(r: &mut Rng) -> (String, String) {
             // non-string claim values), and URL-shaped audiences with / without a trailing slash
             10 => (*r.pick(&["null", "true", "false", "20240131", "0", "-1", "1.0", "[1]", "{}", "[]", "\"n\""])).to_string(),
             11 => (*r.pick(&["https://rp.example.org", "https://rp.example.org/", "https://RP.example.org/cb", "https://rp.example.org:443/cb?x=1#f", "/", "//"])).to_string(),
+            // texts that are JSON arrays of strings (not a multi-valued audience: ONE string), and
+            // base64-looking values with and without '=' padding
+            12 => (*r.pick(&["[\"https://verifier-a.example\",\"https://verifier-b.example\"]", "[\"a\"]", "[\"\"]", "3q2+7w==", "3q2+7w", "q83vEjRWeJA=", "==", "="])).to_string(),
             1 => "https://verifier.example/é😀中".into(),
             2 => "a~b~c".into(),
             3 => "x.y.z".into(),
